@@ -76,23 +76,29 @@ IsPrefix(S) == S = 1..Cardinality(S)
 ----------------------------------------------------------------------------
 (* State invariants (evaluated after every event) *)
 
-\* C01/C02/C03/C15/C19: replicas that applied the same log rows and hold no
-\* unsent change show identical content.
+\* rows that carry operations (presence-only rows do not touch the content)
+ContentRows(s, d) == {i \in 1..Len(s.log[d]) : s.log[d][i].nops > 0}
+AppliedContent(s, k) == {i \in ContentRows(s, k[2]) : s.log[k[2]][i].id \in s.rep[k].applied}
+
+\* C01/C02/C03/C15/C19: replicas that applied the same operation-carrying log
+\* rows and hold no unsent change show identical content.
 Converged(s) ==
   \A k1, k2 \in DOMAIN s.rep :
     (k1[2] = k2[2] /\ k1 # k2 /\ Synced(s, k1) /\ Synced(s, k2)
        /\ s.rep[k1].st # "removed" /\ s.rep[k2].st # "removed"
-       /\ AppliedRows(s, k1) = AppliedRows(s, k2))
+       /\ AppliedContent(s, k1) = AppliedContent(s, k2))
       => s.rep[k1].content = s.rep[k2].content
 
-\* C02/C03/C09: a replica that has applied exactly the log prefix 1..n shows
-\* what the change-fed, never-garbage-collected reference shows at n -
-\* however it got there (snapshot, change pulls, with or without GC).
+\* C02/C03/C09: a replica that has applied exactly the operation-carrying rows
+\* of the log prefix 1..n (n = its checkpoint) shows what the change-fed,
+\* never-garbage-collected reference shows at n - however it got there
+\* (snapshot, change pulls, with or without GC).
 RefEquiv(s) ==
   \A k \in DOMAIN s.rep :
-    (Synced(s, k) /\ s.rep[k].st # "removed" /\ IsPrefix(AppliedRows(s, k)))
-      => LET n == Cardinality(AppliedRows(s, k)) d == k[2]
-         IN (n >= 1 /\ n <= Len(s.ref[d])) => s.rep[k].content = s.ref[d][n].content
+    (Synced(s, k) /\ s.rep[k].st # "removed")
+      => LET n == s.rep[k].cp.s d == k[2]
+         IN (n >= 1 /\ n <= Len(s.ref[d]) /\ AppliedContent(s, k) = {i \in ContentRows(s, d) : i <= n})
+               => s.rep[k].content = s.ref[d][n].content
 
 \* C12: same for presence, for attached replicas.
 PresenceConverged(s) ==
@@ -115,12 +121,15 @@ PerSessionOrdered(s) ==
     (i < j /\ s.log[d][i].id[1] = s.log[d][j].id[1] /\ s.log[d][i].id[2] = s.log[d][j].id[2])
       => s.log[d][i].cs < s.log[d][j].cs
 
-\* C04: no gap below a replica's checkpoint: every row at or below it has been applied
+\* C04: no gap below a replica's checkpoint: every row of ANOTHER actor at or
+\* below it has been delivered (own rows are never echoed - also not to a later
+\* session of the same client, which the property does not demand; whether
+\* that matters for content is decided by Converged / RefEquiv)
 NoGapBelowCheckpoint(s) ==
   \A k \in DOMAIN s.rep :
     (s.rep[k].has /\ s.rep[k].epoch = s.epoch[k[2]] /\ s.rep[k].st # "removed")
       => \A i \in 1..Len(s.log[k[2]]) :
-            i <= s.rep[k].cp.s => (s.log[k[2]][i].id \in s.rep[k].applied \/ s.log[k[2]][i].stripped)
+            (i <= s.rep[k].cp.s /\ s.log[k[2]][i].actor # k[1]) => s.log[k[2]][i].id \in s.rep[k].applied
 
 \* C04: checkpoints never exceed the head
 CheckpointBound(s) ==
